@@ -29,5 +29,10 @@ claim("C05", "reference decoders written from the protocol layout, analysed as a
       "The reference is frozen from the reviewed writers and Java field comments (it cannot be validated against a real collector here). CounterPack1's meter sub-sections (except caller-POID) are delegated to the library's own readers. Byte equality for concrete values follows from layout + C01 and is not executed.",
       "DESIGN.md §3 C05")
 
-for pid in ["C04","C06","C09","C10","C11","C12","C13","C14","C15","C16","C17","C18","C19","C20"]:
+claim("C10", "lock-region dataflow on go/cfg per method, held-at-entry fixpoint for helpers, same-receiver re-entry search, guarded-by table inferred from writers",
+      "Decides, for every method of every mutex-carrying collection in util/hmap, util/list and util/queue: no path calls, with the instance mutex held, a same-receiver method that can acquire it (self-deadlock freedom for every public method, exact for same-receiver calls since sync.Mutex is not re-entrant); every Lock is released on every path; the point operations touch the structure's mutable fields only under the mutex; lock-requiring helpers are never called without it; point operations use one critical section; Cond.Wait is in a re-testing for-loop under the mutex. Necessary conditions of race/deadlock freedom; linearizability itself is not decided.",
+      "Receivers are assumed not aliased within a method; callbacks are assumed not to re-enter the queue; races on stored interface values and across two instances (m.PutAll(m)) are out of scope. Unsynchronised Size()/GetFirst/GetLast are genuine data races recorded as known findings.",
+      "DESIGN.md §3 C10")
+
+for pid in ["C04","C06","C09","C11","C12","C13","C14","C15","C16","C17","C18","C19","C20"]:
     na(pid, "checker not built yet in this round (planned static clauses in DESIGN.md §3); not claimed until the rule is armed and tested")
